@@ -15,6 +15,11 @@ def run(ctx):
     with open(scen, "a") as out:
         for line in open(scen3):
             out.write(line)
+    # importer-centred histories: parse, resolve, then three calls among resolve / flatten / validate / print (imported models are inputs too)
+    scen4 = ctx.gen("Services", "Services.tla", "Gen_C12_importer.cfg", "svcimp", workers=1, timeout=600)
+    with open(scen, "a") as out:
+        for line in open(scen4):
+            out.write(line)
     ctx.sample(scen, 3)
     trace = ctx.execute("services", scen, wall=3000 if ctx.quick else 12000)      # one fresh process per call sequence
     # (1) per shard: inputs unchanged, results functional within the shard
@@ -44,5 +49,5 @@ def run(ctx):
     ctx.finish("model_checking",
                "every sequence of %d service calls (parse strict/permissive, validate, analyse, generate C/Python, print plain/auto-ids, resolve, flatten; fresh and reused instances) over %d pool documents, "
                "each sequence in a fresh process; the result digest (canonical model dump + exact math strings + issue list) of each call must be a function of (operation, argument digests, documented instance state) "
-               "over the whole corpus, and every input model digest must be unchanged; non-trivial = distinct (key, result) observations" % ((3, 7) if ctx.quick else (4, 4)),
+               "over the whole corpus, and every input model digest (the model and the models linked to its import sources) must be unchanged; non-trivial = distinct (key, result) observations" % ((3, 7) if ctx.quick else (4, 4)),
                ["digests are FNV-1a of canonical dumps made with public getters", "the corpus-wide functional check is one TLC run over the de-duplicated observations"])
